@@ -147,6 +147,9 @@ func (c *Calc) Scale(round bool, factor float64) (string, error) {
 	return fmt.Sprintf("factor=%v round=%v", factor, round), nil
 }
 
+// (value, ok) method: null when ok is false
+func (Calc) Maybe(n int) (string, bool) { return fmt.Sprintf("n=%d", n), n != 0 }
+
 // context, two nullable parameters of the same type, swapped: window(lo, hi = 9)
 func (Calc) Window(ctx context.Context, hi *int, lo *int) string {
 	f := func(p *int) string {
@@ -242,8 +245,8 @@ func main() {
 // The one request of the harness and what the GraphQL semantics say the answer is (arguments
 // are matched by NAME; defaults apply to omitted arguments).
 const (
-	harnessRequest = `{"query":"{ calc { span(from: 1, to: 5) label(prefix: \"a\", width: 3, suffix: \"z\") scale(factor: 1.5, round: true) window(lo: 2) w2: window(hi: 4, lo: 7) } }"}`
-	harnessWant    = `{"data":{"calc":{"span":"from=1 to=5","label":"prefix=a width=3 suffix=z","scale":"factor=1.5 round=true","window":"lo=2 hi=9","w2":"lo=7 hi=4"}}}`
+	harnessRequest = `{"query":"{ calc { span(from: 1, to: 5) label(prefix: \"a\", width: 3, suffix: \"z\") scale(factor: 1.5, round: true) window(lo: 2) w2: window(hi: 4, lo: 7) maybe(n: 1) m0: maybe(n: 0) } }"}`
+	harnessWant    = `{"data":{"calc":{"span":"from=1 to=5","label":"prefix=a width=3 suffix=z","scale":"factor=1.5 round=true","window":"lo=2 hi=9","w2":"lo=7 hi=4","maybe":"n=1","m0":null}}}`
 )
 
 func handFiles() map[string]string {
